@@ -788,10 +788,39 @@ type c11Script struct {
 	ks    []int
 	kinds string // subset of "EVX" for the * and # forms
 	m, r  int    // # form: m > 0
-	act   byte   // n c d e
+	acts  string // the handler calls made in a selected callback, in order: c Consume(), d SetDone(), e SetError(non-nil),
+	//              z SetError(nil); "n" = none. E.g. "zc", "ee", "de" (SetError after SetDone), "dz"
 }
 
-func (s c11Script) String() string { return fmt.Sprintf("%s:%s:%c", s.mode, s.sel, s.act) }
+func (s c11Script) String() string { return fmt.Sprintf("%s:%s:%s", s.mode, s.sel, s.acts) }
+
+// c11Calls performs the script's handler calls on the real handler, in order.
+func (s c11Script) c11Calls(h walk.VisitorHandler) {
+	for i := 0; i < len(s.acts); i++ {
+		switch s.acts[i] {
+		case 'c':
+			h.Consume()
+		case 'd':
+			h.SetDone()
+		case 'e':
+			h.SetError(c11ScriptedErr)
+		case 'z':
+			h.SetError(nil) // a visitor forwarding a passing check: must be a no-op
+		}
+	}
+}
+
+func c11ActsOK(a string) bool {
+	if a == "n" {
+		return true
+	}
+	for i := 0; i < len(a); i++ {
+		if strings.IndexByte("cdez", a[i]) < 0 {
+			return false
+		}
+	}
+	return a != ""
+}
 
 func c11NameHash(name string) int {
 	h := 0
@@ -818,7 +847,14 @@ func (s c11Script) fires(n int, kind byte, name string) bool {
 }
 
 func c11MkScript(mode, sel string, act byte) (c11Script, bool) {
-	sc := c11Script{mode: mode, sel: sel, act: act}
+	return c11MkScriptS(mode, sel, string(act))
+}
+
+func c11MkScriptS(mode, sel, acts string) (c11Script, bool) {
+	sc := c11Script{mode: mode, sel: sel, acts: acts}
+	if !c11ActsOK(acts) {
+		return sc, false
+	}
 	kindsOK := func(k string) bool {
 		if k == "" {
 			return false
@@ -863,14 +899,14 @@ func c11ParseScriptsFor(tok string, modes ...string) ([]c11Script, bool) {
 	var out []c11Script
 	for _, part := range strings.Split(tok, ",") {
 		f := strings.Split(part, ":")
-		if len(f) != 3 || len(f[2]) != 1 || !strings.Contains("ncde", f[2]) {
+		if len(f) != 3 {
 			return nil, false
 		}
 		okMode := false
 		for _, m := range modes {
 			okMode = okMode || m == f[0]
 		}
-		sc, ok := c11MkScript(f[0], f[1], f[2][0])
+		sc, ok := c11MkScriptS(f[0], f[1], f[2])
 		if !ok || !okMode {
 			return nil, false
 		}
@@ -894,6 +930,19 @@ func c11ScheduleScripts(rng *Rng, mode string, n int, pairs int, all bool) []c11
 	}
 	if n == 0 {
 		return nil
+	}
+	adds := func(sel, acts string) {
+		if sc, ok := c11MkScriptS(mode, sel, acts); ok {
+			out = append(out, sc)
+		}
+	}
+	// handler-call sequences: SetError(nil) in EVERY callback must change nothing; nil error together with Consume;
+	// SetError twice; SetError after SetDone; SetDone followed by a nil error; at label-determined and random positions
+	adds("*EVX", "z")
+	adds("#2.0EX", "zc")
+	adds(fmt.Sprintf("#3.%dEVX", rng.Intn(3)), "cz")
+	for _, acts := range []string{"z", "zc", "ee", "de", "dz", "ze", "cd", "ce"} {
+		adds(strconv.Itoa(1+rng.Intn(n)), acts)
 	}
 	add("*X", 'c')
 	add("*V", 'c')
@@ -931,14 +980,7 @@ func (s *c11Visitor) event(kind string, node cypher.SyntaxNode) {
 	}
 	if s.script.fires(s.n, kind[0], fmt.Sprintf("%T", node)) {
 		s.fired = true
-		switch s.script.act {
-		case 'c':
-			s.Consume()
-		case 'd':
-			s.SetDone()
-		case 'e':
-			s.SetError(c11ScriptedErr)
-		}
+		s.script.c11Calls(s.VisitorHandler)
 	}
 }
 
@@ -1435,13 +1477,13 @@ func (r *c11Runner) answer(root any, scripts []c11Script, nilish bool) string {
 		res, vis := c11RunWalk(root, sc, true)
 		st.Inc("walk." + res)
 		if vis.fired {
-			switch sc.act {
-			case 'c':
-				st.Inc("walk.consume_fired")
-			case 'd':
-				st.Inc("walk.done_fired")
-			case 'e':
-				st.Inc("walk.error_fired")
+			for _, c := range []struct {
+				b byte
+				n string
+			}{{'c', "walk.consume_fired"}, {'d', "walk.done_fired"}, {'e', "walk.error_fired"}, {'z', "walk.nil_error_fired"}} {
+				if strings.IndexByte(sc.acts, c.b) >= 0 {
+					st.Inc(c.n)
+				}
 			}
 		}
 		log := "-"
